@@ -3,7 +3,7 @@
    directly); list values with non-string elements; keywords that name an attribute which is not a field. *)
 From Coq Require Import List ZArith NArith Bool String Lia.
 From FIM Require Import Base.Str Base.Regex Base.RegexSound Model.Labels16Types Gen.UnicodeClasses Gen.LabelValidators
-  Model.Labels16 Model.Labels16Spec Proofs.Validate16.
+  Model.Labels16 Model.Labels16Spec Proofs.Validate16 Proofs.Validate16Misc.
 Import ListNotations.
 
 (* acceptance of one keyword does not depend on the object it is set on *)
@@ -166,3 +166,37 @@ Qed.
 (* decoding never stores under an attribute name once from_json pre-filters *)
 Theorem nonfield_attr_from_json : from_json_prefilters = true -> nonfield_attr_outcome_from_json = KW_skipped.
 Proof. intro H. unfold nonfield_attr_outcome_from_json. rewrite H. reflexivity. Qed.
+
+(* ---------------- Tags / Capacities objects changed directly, then attached ---------------- *)
+Definition tags_attach_full : Prop := forall l, attach_tags set_tags_revalidates l = true -> Forall tag_in_domain l.
+Definition tags_attach_refuted : Prop := exists l, attach_tags set_tags_revalidates l = true /\ ~ Forall tag_in_domain l.
+
+Theorem tags_attach_full_or_refuted : if set_tags_revalidates then tags_attach_full else tags_attach_refuted.
+Proof.
+  unfold tags_attach_full, tags_attach_refuted. destruct set_tags_revalidates.
+  - intros l H. unfold attach_tags in H. destruct (tag_check_all l) as [out|] eqn:E; [|discriminate].
+    apply tag_check_all_spec in E. tauto.
+  - exists [TNonStr]. split; [reflexivity|]. intro F. inversion F; subst. contradiction.
+Qed.
+
+Lemma cap_set_fields_ok_all fg : forall kws st, snd (cap_set_fields fg st kws) = None ->
+  Forall (fun kv => cap_asserts (snd kv) = None) kws.
+Proof.
+  induction kws as [|[k v] kws IH]; intros st H; [constructor|]. cbn [cap_set_fields] in H. unfold cap_set_one in H.
+  destruct (cap_asserts v) eqn:A; [discriminate|]. constructor; [exact A|].
+  destruct (mem_str k cap_field_names).
+  - apply (IH _ H).
+  - destruct fg; [apply (IH _ H) | discriminate].
+Qed.
+
+Definition caps_attach_full : Prop := forall st, attach_caps set_capacities_revalidates st = true -> caps_inv st.
+Definition caps_attach_refuted : Prop := exists st, attach_caps set_capacities_revalidates st = true /\ ~ caps_inv st.
+
+Theorem caps_attach_full_or_refuted : if set_capacities_revalidates then caps_attach_full else caps_attach_refuted.
+Proof.
+  unfold caps_attach_full, caps_attach_refuted. destruct set_capacities_revalidates.
+  - intros st H. unfold attach_caps in H. destruct (snd (cap_set_fields false st st)) eqn:E; [discriminate|].
+    apply cap_set_fields_ok_all in E. unfold caps_inv. eapply Forall_impl; [|exact E].
+    intros kv A. apply cap_asserts_spec. exact A.
+  - exists [(S"core", CV_int (-5))]. split; [reflexivity|]. intro F. inversion F; subst. cbn in H1. lia.
+Qed.
